@@ -378,6 +378,12 @@ def check(model: Model, run: Run) -> None:
     if not mk:
         run.cannot('make_aspath calls not found in as_path parser')
 
+    # ------------------------------------------------------------------ R5 what is written is what is sent (flow lists)
+    run.rule('C18.R5', 'a FlowSpec list `[ a&b c ]` is sent as written: in the text parser the AND flag is reassigned before every operator, so an `&` seen earlier does not leak onto a later alternative (shared with C16.R7)', floor=1)
+    from .C16 import and_flag_rule
+
+    and_flag_rule(model, run)
+
 
 # (function, operand) -> why the packed operand is in range although no guard shows it
 PACK_TRIAGED: dict[tuple[str, str], str] = {}
